@@ -13,8 +13,8 @@ from mc.lib.classify_spaces import exc_site
 ID = 'C14'
 LEVEL = 'exploration'
 RULE = (
-    'Finite lattice: every subset of 4..6 (thorough: 4..7) knots of a '
-    '7-point level menu x 5 value patterns (rising, flat, falling, zig-zag, step with overshoot) '
+    'Finite lattice: every subset of 4..7 knots of a 7-point level menu '
+    '(thorough: 4..8 knots of a 9-point menu) x 5 value patterns (rising, flat, falling, zig-zag, step with overshoot) '
     'x integration limits drawn from the position classes {far below, just '
     'below, first knot, inside each segment, each knot, last knot, just '
     'above, far above, exactly 0}: all ordered pairs and all ordered triples, through '
@@ -28,9 +28,12 @@ RULE = (
 ASSUMPTIONS = [
     'nothing is claimed between the representative limits of each class; '
     'the integrand is piecewise cubic, so the quadrature oracle is exact up '
-    'to rounding (tolerance 1e-10 x (|b-a|+1) x max|Sy|)',
+    'to rounding (tolerance 1e-10 x (|b-a|+1) x max|Sy|, the maximum taken '
+    'over the knots and 7 points inside every segment)',
 ]
 LEVELS = [-291.7, -183.1, -15.74, 10.65, 38.78, 168.3, 400.0]
+LEVELS_THOROUGH = [-1291.725, -291.7, -183.1, -15.74, 10.65, 12.0, 38.78,
+                   168.3, 400.0]
 PATTERNS = {
     'rising': lambda i, n: 0.1 + 0.8 * i / (n - 1),
     'flat': lambda i, n: 0.25,
@@ -51,14 +54,16 @@ def decoy():
 def BOUND(tier):
     return ('%s knot subsets x 5 value patterns x all ordered pairs and '
             'triples of 2K+3 limit positions'
-            % ('4..6-element' if tier == 'quick' else '4..7-element'))
+            % ('4..7-element (of 7 levels)' if tier == 'quick'
+               else '4..8-element (of 9 levels)'))
 
 
 def knot_sets(tier):
     if tier not in _SETS:
-        sizes = (4, 5, 6) if tier == 'quick' else (4, 5, 6, 7)
-        _SETS[tier] = [c for k in sizes
-                       for c in itertools.combinations(range(7), k)]
+        menu = LEVELS if tier == 'quick' else LEVELS_THOROUGH
+        sizes = (4, 5, 6, 7) if tier == 'quick' else (4, 5, 6, 7, 8)
+        _SETS[tier] = [tuple(menu[i] for i in c) for k in sizes
+                       for c in itertools.combinations(range(len(menu)), k)]
     return _SETS[tier]
 
 
@@ -89,7 +94,7 @@ def spaces(tier):
 
     def decode(i):
         si, pattern, a = index[i]
-        return {'knots': [LEVELS[k] for k in sets[si]], 'pattern': pattern,
+        return {'knots': list(sets[si]), 'pattern': pattern,
                 'a': a}
     return [Space('SplineSpecificYield/knot subsets x patterns x first limit',
                   len(index), decode,
@@ -115,6 +120,16 @@ def run_case(case):
     pos = positions(knots)
     a = pos[case['a']]
     scale = max(abs(v) for v in values)
+    try:
+        # rounding is relative to the amplitude the interpolant reaches
+        # between its knots (a cubic through close and distant knots rings
+        # far above its knot values), not to the knot values alone
+        for p, q in zip(knots, knots[1:]):
+            for k in range(1, 8):
+                scale = max(scale, abs(float(sy(p + (q - p) * k / 8.0))))
+    except Exception as exc:  # pylint: disable=broad-except
+        return Result(viol=[('crash:' + exc_site(exc), repr(exc)[:200])],
+                      nontrivial=True, outcome='exc')
     try:
         if case['a'] == 1 and len(knots) <= 5:
             # the tabulating command, once per small (set, pattern)
